@@ -154,6 +154,34 @@ def handle_events(sol_tuple, events, consts, direction, is_terminal, attributes)
 
     up = success & up
     down = success & down
+
+    # A root that crosses against the requested direction although the event function changes sign over the rest of the
+    # step in the requested direction is an inner one of three or more crossings: a compatible crossing lies between the
+    # start of the step and a point just short of that root.
+    wrong_way = (up & ~down & (direction < 0)) | (down & ~up & (direction > 0))
+    if D.ar_numpy.any(wrong_way):
+        for idx in D.ar_numpy.to_numpy(D.ar_numpy.reshape(D.ar_numpy.nonzero(wrong_way), (-1,))):
+            idx = int(idx)
+            t_root = roots[idx]
+            for _ in range(8):
+                t_short = t_root - probe_widths[0] * (t_next - t_prev)
+                if (t_short - t_prev) * (t_next - t_prev) <= 0:
+                    break
+                g_start, g_short = ev_f[idx](t_prev), ev_f[idx](t_short)
+                if not (__rises(g_start, g_short) if direction[idx] > 0 else __rises(-g_start, -g_short)):
+                    break
+                new_root, new_success = root_finder([ev_f[idx]], [t_prev, t_short], tol=None, verbose=False)
+                if not new_success[0]:
+                    break
+                t_root = new_root[0]
+                g_before = ev_f[idx](t_root - probe_widths[0] * (t_next - t_prev))
+                g_after = ev_f[idx](t_root + probe_widths[0] * (t_next - t_prev))
+                if __rises(g_before, g_after) if direction[idx] > 0 else __rises(-g_before, -g_after):
+                    roots[idx] = t_root
+                    up[idx] = bool(direction[idx] > 0)
+                    down[idx] = bool(direction[idx] < 0)
+                    break
+
     either = up | down
 
     # print(roots, success, up, down, either, g, g_cen, g_new)
